@@ -328,3 +328,18 @@ Theorem C01_prefix_keeps_pattern_end_generated : forall pf pattern inherit,
   gen_prefix_pattern (Some pf) inherit pattern = rstrip_char 47%N pf ++ 47%N :: lstrip_char 47%N pattern.
 Proof. exact prefix_keeps_pattern_end. Qed.
 Print Assumptions C01_prefix_keeps_pattern_end_generated.
+
+(* ---- sixth round: the listings of a RoutesMapper are functions of its attributes (the regenerated
+   program has no way to change the mapper: it is not threaded through them), so a dispatch
+   after any number of listings is the dispatch on the same mapper *)
+Theorem C01_generated_get_routes_is_model : forall m b, gen_get_routes m b = get_routes_model m b.
+Proof. exact gen_get_routes_is_model. Qed.
+Print Assumptions C01_generated_get_routes_is_model.
+
+Theorem C01_generated_has_routes_is_model : forall m, gen_has_routes m = has_routes_model m.
+Proof. exact gen_has_routes_is_model. Qed.
+Print Assumptions C01_generated_has_routes_is_model.
+
+Theorem C01_generated_get_route_is_model : forall m n, gen_get_route m n = get_route_model m n.
+Proof. exact gen_get_route_is_model. Qed.
+Print Assumptions C01_generated_get_route_is_model.
